@@ -30,7 +30,14 @@ func stallCase(c *h.Case) {
 		return
 	}
 	stallMu.Lock()
-	defer stallMu.Unlock()
+	locked := true
+	unlock := func() {
+		if locked {
+			locked = false
+			stallMu.Unlock()
+		}
+	}
+	defer unlock()
 	if wd(stallKey) < 20*time.Second {
 		run.Count("stall_cases_skipped_after_three_findings", 1)
 		return
@@ -89,6 +96,8 @@ func stallCase(c *h.Case) {
 			x.Close()
 		}
 	} else if waitClose && err == nil {
+		// the probes passed: waiting for the server's read timeout needs no exclusivity
+		unlock()
 		// refused = closed by the read timeout (10 s); watchdog 3 x 10 s + 10 s
 		key := "idle-connection-not-closed"
 		d := 40 * time.Second
